@@ -5,7 +5,5 @@ import "encoding/json"
 func jsonUnmarshal(s string, v any) error { return json.Unmarshal([]byte(s), v) }
 
 func (s *Sim) oracleHTTPDone(h *HTTPCall) {}
-func (s *Sim) execFault(d Decision) bool  { return false }
-func (s *Sim) finishStopped()             {}
 
 func (s *Sim) httpCallJustified(r *Req) {}
